@@ -47,6 +47,19 @@ impl MemoryStore {
     }
 }
 
+#[cfg(memcrs_verif)]
+impl MemoryStore {
+    /// verification hook: set the CAS counter (next value handed out)
+    pub fn verif_set_cas_id(&self, value: u64) {
+        self.cas_id.store(value, Ordering::SeqCst);
+    }
+
+    /// verification hook: read the CAS counter
+    pub fn verif_cas_id(&self) -> u64 {
+        self.cas_id.load(Ordering::SeqCst)
+    }
+}
+
 impl impl_details::CacheImplDetails for MemoryStore {
     fn get_by_key(&self, key: &KeyType) -> Result<Record> {
         match self.memory.get(key) {
